@@ -4,7 +4,7 @@
     delete_connection, add_column, delete_column, add_layer, delete_layer break clauses of [Inv]. *)
 From Coq Require Import Ascii String List Bool PArith NArith ZArith QArith FMapPositive Permutation Lia.
 From PTBase Require Import Exn PyStr.
-From P Require Import Assoc GeoState GeoEdit GeoStep Inv InvNames InvSimple Sets InvCol InvConn InvDel InvRefresh InvRename InvSplit InvSplit2 Reach.
+From P Require Import Assoc GeoState GeoEdit GeoEdit2 GeoStep Inv InvNames InvSimple Sets InvCol InvConn InvDel InvRefresh InvRename InvCompound InvSplit InvSplit2 InvSnap InvDecomp InvRefine Reach.
 Import ListNotations.
 Open Scope list_scope.
 
@@ -232,4 +232,40 @@ Proof.
   split; [exact g_overlap_inv|]. split; [reflexivity|]. split; [vm_compute; reflexivity|].
   intro X. destruct (X 7%positive) as [a [b [E [_ [A _]]]]]; [vm_compute; auto|].
   vm_compute in E. inversion E; subst a b. vm_compute in A. intuition discriminate.
+Qed.
+
+(** ** refine: the hypotheses of the refine theorems are met (column a of the two-column geometry refined: four
+    quadrilaterals, its neighbour split into three triangles, eight missing connections added) *)
+Definition mp (l : list (string * string)) : list key2 := map (fun k => (s2l (fst k), s2l (snd k))) l.
+Definition h_ref : refine_hints :=
+  {| hk := [0%nat]; hb := Ok [0; 1; 2; 3; 4; 5]%nat; hc := [0; 1]%nat;
+     hm := mp [("  d", "  h"); ("  e", "  g"); ("  g", "  i"); ("  h", "  i"); ("  c", "  d"); ("  c", "  f"); ("  d", "  e"); ("  e", "  f")]%string |}.
+Definition g_ref4 : geo := Eval vm_compute in (match refine_prefix g_two [na] h_ref with Ok (Some g) => g | _ => g_two end).
+Lemma g_ref4_run : refine_prefix g_two [na] h_ref = Ok (Some g_ref4).
+Proof. vm_compute. reflexivity. Qed.
+Lemma ref_conns_ok : refine_conns_ok g_two [na] h_ref.
+Proof.
+  intros g4 E. rewrite g_ref4_run in E. inversion E; subst g4. clear E.
+  change (hm h_ref) with (mp [("  d", "  h"); ("  e", "  g"); ("  g", "  i"); ("  h", "  i"); ("  c", "  d"); ("  c", "  f"); ("  d", "  e"); ("  e", "  f")]%string).
+  cbn [mp map fst snd conns_ok].
+  repeat (split; [let ca := fresh in let cb := fresh in let A := fresh in let B := fresh in
+                  intros ca cb A B _; vm_compute in A, B; inversion A; inversion B; subst; split; [discriminate|vm_compute; discriminate]
+                 |let g1 := fresh "g" in let E1 := fresh in intros g1 E1; vm_compute in E1; inversion E1; subst g1; clear E1]).
+  exact I.
+Qed.
+Definition g_refined : geo := Eval vm_compute in result (refine g_two [na] h_ref).
+Lemma g_refined_run : refine g_two [na] h_ref = Ok g_refined.
+Proof. vm_compute. reflexivity. Qed.
+Lemma g_two_refine_conforming : refine_conforming g_two [na].
+Proof.
+  intros columns E. vm_compute in E. inversion E; subst columns. clear E. cbv zeta. split.
+  - intros k Hk. vm_compute in Hk. destruct Hk as [<-|[]]. intros a b Ekn. vm_compute in Ekn. inversion Ekn; subst a b.
+    exists 7%positive, 1%nat. split; [vm_compute; auto|]. split; [vm_compute; lia|vm_compute; reflexivity].
+  - intros k k' Hk Hk' N. vm_compute in Hk, Hk'. destruct Hk as [<-|[]]. destruct Hk' as [<-|[]]. contradiction.
+Qed.
+Example refine_example : Inv g_refined /\ forall a, In a (nlist g_refined) -> ~ In a (nlist g_two) -> exists c', In c' (clist g_refined) /\ In a (cns g_refined c').
+Proof.
+  split.
+  - exact (refine_inv g_two [na] h_ref g_refined g_two_inv ref_conns_ok g_refined_run).
+  - exact (refine_new_nodes_used g_two [na] h_ref g_refined (i_s _ g_two_inv) g_two_refine_conforming g_refined_run).
 Qed.
